@@ -70,11 +70,7 @@ Definition mrel (rs : rstate) (ms : list (Z * list bytes)) : Prop :=
               | None => match_get (Z.of_N pid) ms = []
               end.
 
-Definition trel (rs : rstate) (tm : timeval) : Prop :=
-  match rs_time rs with
-  | Some t => tm = t /\ time_is_zero t = false
-  | None => tm = zero_time
-  end.
+Definition trel (rs : rstate) (tm : timeval) : Prop := tm = time_reg rs.
 
 (* what "the VM computes e as the reference does" means at one program point *)
 Definition sim_at (e : expr) (t : ty) (pc : nat) (stk : list val) (mt : bool)
@@ -492,9 +488,7 @@ Proof.
     inversion Hty; subst ty. cbn [RefSem.eval Codegen.cexpr length]. repeat split.
     eexists. split; [apply vr_i64|].
     rewrite Nat.add_1_r. eapply step1; [exact Hat|].
-    cbn. unfold trel in Ht. destruct (rs_time rs) as [t0|].
-    + destruct Ht as [-> Hz]. rewrite Hz. reflexivity.
-    + subst tm. reflexivity.
+    cbn. unfold trel in Ht. subst tm. destruct (time_is_zero (time_reg rs)); reflexivity.
   - (* EGetfilename *)
     inversion Hty; subst ty. cbn [RefSem.eval Codegen.cexpr length]. repeat split.
     exists (VStr file). split; [constructor|].
